@@ -237,7 +237,7 @@ theorem setRefs_spec {c : Cfg} (hc : c.Sound) {p f : Fn} (hpf : p ≠ f) :
     simp only [admitsAll] at ha
     obtain ⟨h1, h2, h3, h4⟩ := setRefs_spec hc hpf us (i + 1)
       { s with closureVar := fun f' n => if f' = f ∧ n = name then some i else s.closureVar f' n }
-      (inv_congr rfl rfl rfl rfl hs) (admitsAll_congr rfl rfl p us ha)
+      (inv_congr (s := s) rfl rfl rfl rfl hs) (admitsAll_congr (s := s) (s' := { s with closureVar := fun f' n => if f' = f ∧ n = name then some i else s.closureVar f' n }) rfl rfl p us ha)
     refine ⟨h1, h2, h3, ?_⟩
     intro v k hk
     rcases h4 v k hk with h | ⟨hle, q, g, hq, hg, hres⟩
@@ -364,7 +364,7 @@ theorem step_inv {c : Cfg} (hc : c.Sound) {s s' : Store} (hs : Inv c none s) (e 
   | bindImport t k x =>
     simp only [step, Option.some.injEq] at h
     subst h
-    exact inv_congr rfl rfl rfl rfl hs
+    exact inv_congr (s := s) rfl rfl rfl rfl hs
   | pkgVar k x =>
     simp only [step, Option.some.injEq] at h
     subst h
@@ -607,7 +607,7 @@ theorem setRefs_seen {c : Cfg} (hc : c.Sound) {p f : Fn} (hpf : p ≠ f) :
     simp only [admitsAll] at ha
     have := setRefs_seen hc hpf us (i + 1)
       { s with closureVar := fun f' n => if f' = f ∧ n = name then some i else s.closureVar f' n }
-      (inv_congr rfl rfl rfl rfl hs) (admitsAll_congr rfl rfl p us ha) u
+      (inv_congr (s := s) rfl rfl rfl rfl hs) (admitsAll_congr (s := s) (s' := { s with closureVar := fun f' n => if f' = f ∧ n = name then some i else s.closureVar f' n }) rfl rfl p us ha) u
     simpa [setRefs, predefs] using this
   | .predef v :: us, i, s, hs, ha, u => by
     simp only [admitsAll, Bool.and_eq_true] at ha
